@@ -118,8 +118,11 @@ STEP_DEPS = {
  'frame_question': ['C03', 'C05', 'C10'],
  'frame_rr': ['C03', 'C09'],
  'frame_opt': ['C09', 'C15'],
+ 'frame_opt_enc': ['C05', 'C15'],
  'frame_apl': ['C09', 'C17'],
+ 'frame_apl_enc': ['C05', 'C17'],
  'frame_svcb': ['C09', 'C16'],
+ 'frame_svcb_enc': ['C05', 'C16'],
  'svc_numbers_agree': ['C16'],
  'svc_dec_agree': ['C03', 'C04', 'C16'],
  'svc_enc_agree': ['C05', 'C16'],
